@@ -20,6 +20,7 @@ T6 == [dep |-> 4, tot |-> 2, pool |-> 1, master |-> FALSE, childs |-> <<1>>, del
 TplSingle == {T1, T5}
 TplMaster == {T2, T6}
 TplTwo == {T1, T2}
+TplMasterAll == {T2, T3, T4, T6}
 TplThorough == {T1, T2, T3, T4, T5, T6}
 
 Pool1(mode) == [exists |-> TRUE, disabled |-> FALSE, dis |-> FALSE,
